@@ -289,6 +289,11 @@ func (s *sched) point(t *thread, p *pend) {
 	t.pend = p
 	s.moves++
 	t.moves++
+	if s.hbOn {
+		// every point advances the thread's history, so two consecutive choice points
+		// of one thread never share a key
+		t.h = mix(t.h, 0x9017+uint64(p.kind))
+	}
 	next := s.choose(t)
 	if next == nil {
 		s.endExecution()
